@@ -64,8 +64,6 @@ func (_ *StorageSmartContract) shutdownBlobber(
 				return err
 			}
 
-			stakePool.TotalOffers = 0
-
 			return stakePool.Save(spenum.Blobber, req.ID, balances)
 		},
 		balances,
@@ -163,8 +161,6 @@ func (_ *StorageSmartContract) shutdownValidator(
 			if err != nil {
 				return err
 			}
-
-			stakePool.TotalOffers = 0
 
 			return stakePool.Save(spenum.Blobber, req.ID, balances)
 		},
